@@ -600,6 +600,10 @@ func (ro *rollout) judgeSync(before rolloutSnapshot, sr *syncResult) rolloutVerd
 						ro.viol("C07", "progressing-without-message", "RolloutProgressing without saying which child", sr, before)
 					}
 				}
+				if reason == "RolloutProgressing" && len(v.Moves) == 1 && !strings.Contains(msg, v.Moves[0]) {
+					// "progressing" says which child this sync is updating: the one whose record moved
+					ro.viol("C07", "progressing-names-another-child", fmt.Sprintf("RolloutProgressing says %q, but the child moved to the latest revision in this sync is %s", msg, v.Moves[0]), sr, before)
+				}
 				if reason == "RolloutWaiting" && msg == "" {
 					ro.viol("C07", "waiting-without-reason", "RolloutWaiting without a message saying why", sr, before)
 				}
